@@ -97,7 +97,7 @@ fn one<A: Sx>(content: &[A], s: usize, ph: usize, out: &mut Out) {
     let n = content.len();
     let pl = place(content, s, 0);
     let fresh = build(content);
-    let copied = owned_from_offset(content, ph);
+    let copied = owned_headed(content, ph);
     out.dim("len", n as i64);
     out.dim("view_bit_offset", ((s * A::BITS as usize) % 64) as i64);
     if let Some(h) = head_of(&copied) {
